@@ -155,6 +155,24 @@ PROPS = {    "C01": {
                         "native replay plants canary executables on PATH for every backtick segment of the counterexample and diffs os.Environ()"],
         "outside_claim": COMMON_OUTSIDE + ["yaml.v2 / mapstructure", "base-config merge", "effects of reading the environment (os.ExpandEnv)"],
     },
+    "C20": {
+        "obligations": [
+            {"name": "C20.guards", "pkg": "./internal/frontend/dag", "replay": "R1",
+             "must_assert": ["C20.guards/start-refused-while-running", "C20.guards/stop-refused-when-not-running", "C20.guards/status-edit-refused-when-running-or-malformed",
+                             "C20.edit/other-steps-untouched", "C20.guards/unknown-or-missing-action-refused", "C20.params/start-passes-parameters-unchanged"],
+             "quick": {"entry": "VerifHarness_C20_guards2", "flags": ["-unwind", "16", "-solver", "cvc5", "-fallback", "z3", "-query-timeout-ms", "5000"],
+                       "bounds": {"recorded_nodes": 2, "name_len": 3, "string_len": 6, "actions": "8 known + unknown + nil", "dag_status": "all 5", "node_status": "all 6"}},
+             "thorough": {"entry": "VerifHarness_C20_guards3", "flags": ["-unwind", "16", "-solver", "cvc5", "-fallback", "z3", "-query-timeout-ms", "5000"],
+                          "bounds": {"recorded_nodes": 3, "name_len": 3, "string_len": 6}}},
+            {"name": "C20.params", "pkg": "./cmd", "replay": "R1",
+             "quick": {"entry": "VerifHarness_C20_params3", "flags": ["-unwind", "16", "-solver", "cvc5", "-fallback", "z3", "-query-timeout-ms", "5000"], "bounds": {"param_len": "0..3"}},
+             "thorough": {"entry": "VerifHarness_C20_params6", "flags": ["-unwind", "16", "-solver", "cvc5", "-fallback", "z3", "-query-timeout-ms", "5000"], "bounds": {"param_len": "0..6"}}},
+        ],
+        "assumptions": ["Handler.postAction is driven directly over a recording fake client.Client (go-swagger binding/validation outside)",
+                        "the status edit is checked on the object handed to client.UpdateStatus; the persistence of that object is C06's subject",
+                        "C20.params: the spawned command line is modelled as Sprintf(quote, escapeArg(p)) -> removeQuotes, the three real functions; process spawning itself is outside"],
+        "outside_claim": COMMON_OUTSIDE + ["go-swagger parameter binding/validation, remote-node proxying, process spawning", "sequences of several API actions over the real stores (C20.edit over the real client: not built)"],
+    },
     "C14": {
         "obligations": [
             {"name": "C14.iff", "pkg": SCHED, "replay": "R1",
